@@ -66,21 +66,24 @@ Arguments cache_expire : simpl never.
 Lemma get_inst_upd s o x : (o < length (heap s))%nat -> get_inst (with_heap s (set_nth o x (heap s))) o = x.
 Proof. intros H. unfold get_inst. cbn. now apply nth_set_nth_same. Qed.
 
-Lemma so_expire_effect s o a b d :
-  (o < length (heap s))%nat -> i_vals (get_inst s o) = [Some a; Some b; Some d] -> i_expired (get_inst s o) = false ->
+Lemma nth_all_none {X Y} (l : list X) c : nth c (map (fun _ => @None Y) l) None = None.
+Proof. revert c. induction l as [|x l IH]; intros [|c]; cbn; auto. Qed.
+
+Lemma so_expire_effect s o :
+  (o < length (heap s))%nat ->
   exists s1, so_expire cfg o s = (Ret tt, s1) /\ slots s1 = slots s /\ tables s1 = tables s /\ fault s1 = fault s /\
     log s1 = log s /\ (o < length (heap s1))%nat /\
     i_k (get_inst s1 o) = i_k (get_inst s o) /\ i_id (get_inst s1 o) = i_id (get_inst s o) /\
-    i_vals (get_inst s1 o) = [None; None; None].
+    i_vals (get_inst s1 o) = map (fun _ => None) (i_vals (get_inst s o)) /\ i_pending (get_inst s1 o) = [].
 Proof.
-  intros Hlt Hv Hex. unfold so_expire, bind, gets. cbn. rewrite Hex, Hv. cbn.
+  intros Hlt. unfold so_expire, bind, gets. cbn.
   set (s1 := with_heap s _).
   assert (L1 : (o < length (heap s1))%nat) by (subst s1; cbn; now rewrite length_set_nth).
   set (s2 := with_heap s1 _).
   destruct (cache_expire_run (i_k (get_inst s o)) (i_id (get_inst s o)) s2) as (c' & Ec). rewrite Ec.
   eexists. split; [reflexivity|]. cbn.
   repeat split; rewrite ?length_set_nth; try exact Hlt.
-  all: unfold get_inst at 1; cbn; rewrite nth_set_nth_same by (rewrite ?length_set_nth; exact Hlt); cbn;
+  all: unfold get_inst at 1; cbn; rewrite nth_set_nth_same by (rewrite ?length_set_nth; exact Hlt); cbn; try reflexivity;
        unfold get_inst at 1; cbn; rewrite nth_set_nth_same by (rewrite ?length_set_nth; exact Hlt); cbn;
        subst s1; rewrite get_inst_upd by exact Hlt; reflexivity.
 Qed.
@@ -88,27 +91,33 @@ Qed.
 End WithConfig.
 Arguments so_expire : simpl never.
 
-Theorem C05_expire_then_read_proof : C05_expire_then_read_stmt.
+(* expire() then a read: the stored value or not-found, whatever the instance cached before *)
+Theorem C05_expire_always_refreshes_proof : C05_expire_always_refreshes_stmt.
 Proof.
-  intros cfg s h o c r1 s1 r2 s2 Hh Hlt Hc Hcv (a & b & d & Hv) Hex H1 H2.
+  intros cfg s h o c r1 s1 r2 s2 Hh Hlt Hcv H1 H2.
   unfold step in H1. cbn [run_op] in H1.
   unfold bind, handle, gets in H1. cbn in H1. rewrite Hh in H1. cbn in H1.
-  destruct (so_expire_effect cfg (with_fault (with_log s []) None) o a b d Hlt Hv Hex)
-    as (s1' & E1 & Esl & Etb & Efl & Elg & Hlt1 & Ek & Eid & Ev).
+  destruct (so_expire_effect cfg (with_fault (with_log s []) None) o Hlt)
+    as (s1' & E1 & Esl & Etb & Efl & Elg & Hlt1 & Ek & Eid & Ev & Epn).
   rewrite E1 in H1. cbn in H1. inversion H1; subst r1 s1'. clear H1. split; [reflexivity|].
   cbn in Esl, Etb, Ek, Eid.
   unfold step in H2. cbn [run_op] in H2.
   unfold bind, handle, gets in H2. cbn in H2. rewrite Esl, Hh in H2. cbn in H2.
   unfold so_read, bind, gets in H2. cbn in H2.
   change (get_inst (with_fault (with_log s1 []) None) o) with (get_inst s1 o) in H2.
-  change (get_inst (with_fault (with_log s []) None) o) with (get_inst s o) in Ek, Eid.
-  rewrite Ek, Hcv, Ev in H2.
-  assert (Hn : nth c [@None val; None; None] None = None) by (destruct c as [|[|[|[|c]]]]; reflexivity).
-  rewrite Hn in H2. cbn in H2.
+  change (get_inst (with_fault (with_log s []) None) o) with (get_inst s o) in Ek, Eid, Ev.
+  rewrite Ek, Hcv, Ev, Epn, nth_all_none in H2. cbn in H2.
   unfold db_select_one, bind, statement, gets in H2. cbn in H2.
   unfold tbl in *. cbn [tables with_log with_fault with_heap] in H2. rewrite Etb, Eid in H2.
   destruct (assoc (i_id (get_inst s o)) (t_rows (tget (i_k (get_inst s o)) (tables s)))) as [row|] eqn:Erow;
-    cbn in H2; inversion H2; subst; reflexivity.
+    cbn in H2; inversion H2; subst; try reflexivity.
+  destruct (is_lazy (i_k (get_inst s o))); reflexivity.
+Qed.
+
+Theorem C05_expire_then_read_proof : C05_expire_then_read_stmt.
+Proof.
+  intros cfg s h o c r1 s1 r2 s2 Hh Hlt Hc Hcv _ _ H1 H2.
+  exact (C05_expire_always_refreshes_proof cfg s h o c r1 s1 r2 s2 Hh Hlt Hcv H1 H2).
 Qed.
 
 Arguments cache_created : simpl never.
@@ -251,4 +260,5 @@ Print Assumptions C16_insert_immediate_proof.
 Print Assumptions C16_delete_immediate_proof.
 Print Assumptions C05_sync_refreshes_proof.
 Print Assumptions C05_expire_then_read_proof.
+Print Assumptions C05_expire_always_refreshes_proof.
 Print Assumptions C05_assign_on_expired_not_cached_proof.
